@@ -1,4 +1,5 @@
 SPECIFICATION Spec
-CONSTANT N = 3
+CONSTANTS DoubleMembers = TRUE
+ N = 3
 INVARIANTS DecisionSound DecisionExact Emit
 CHECK_DEADLOCK FALSE
